@@ -155,7 +155,7 @@ GATES1 = ["H", "X", "Y", "Z", "S", "S_DAG", "SQRT_X", "I", "T", "T_DAG", "R", "R
 GATES2 = ["CX", "CZ", "SWAP", "ISWAP", "CY", "XCZ"]
 MEAS1 = ["M", "MX", "MY", "MR", "MRX", "MPAD"]
 NOISE1 = ["X_ERROR", "Z_ERROR", "DEPOLARIZE1", "Y_ERROR"]
-PROBS = ["0.125", "0.25", "0.5", "0.0625", "0.375"]
+PROBS = ["0.125", "0.25", "0.5", "0.0625", "0.375", "0.0009765625", "0.1240234375"]   # the last two need more than 6 significant digits
 TAGS = ["", "", "", "", "[a]", "[b2]"]
 
 
